@@ -78,6 +78,8 @@ fn run_worker(page_pool: PagePool, command_rx: Receiver<IoPacket>) {
 
     let (submitter, mut submit_queue, mut complete_queue) = ring.split();
     let mut retries = VecDeque::<IoPacket>::new();
+    #[cfg(feature = "verif-hooks")]
+    let mut verif_tokens = std::collections::HashMap::<usize, u64>::new();
 
     // Indicates whether the worker detected that it should shutdown.
     let mut shutdown = false;
@@ -94,6 +96,8 @@ fn run_worker(page_pool: PagePool, command_rx: Receiver<IoPacket>) {
                     command,
                     completion_sender,
                 } = pending.remove(completion_event.user_data() as usize);
+                #[cfg(feature = "verif-hooks")]
+                let verif_token = verif_tokens.remove(&(completion_event.user_data() as usize));
 
                 // io_uring never uses errno to pass back error information.
                 // Instead, completion_event.result() will contain what the equivalent
@@ -114,6 +118,10 @@ fn run_worker(page_pool: PagePool, command_rx: Receiver<IoPacket>) {
                     }
                 };
 
+                #[cfg(feature = "verif-hooks")]
+                if let Some(token) = verif_token {
+                    crate::verif::after(token, result.is_ok());
+                }
                 let complete = CompleteIo { command, result };
                 let _ = completion_sender.send(complete);
             }
@@ -159,12 +167,19 @@ fn run_worker(page_pool: PagePool, command_rx: Receiver<IoPacket>) {
                 }
             };
 
+            #[cfg(feature = "verif-hooks")]
+            let (next_io, verif_token) = match verif_before(next_io) {
+                Some(x) => x,
+                None => continue,
+            };
             to_submit = true;
             let pending_index = pending.insert(PendingIo {
                 command: next_io.command,
                 completion_sender: next_io.completion_sender,
             });
 
+            #[cfg(feature = "verif-hooks")]
+            verif_tokens.insert(pending_index, verif_token);
             let entry = submission_entry(&mut pending.get_mut(pending_index).unwrap().command)
                 .user_data(pending_index as u64);
 
@@ -186,6 +201,37 @@ fn run_worker(page_pool: PagePool, command_rx: Receiver<IoPacket>) {
                 Err(ref e) if e.kind() == std::io::ErrorKind::Interrupted => (),
                 other @ Err(_) => panic!("unexpected error: {:?}", other),
             }
+        }
+    }
+}
+
+/// Report a write command to the verification hook before it is queued. If the hook injects a
+/// failure, the command is completed with the error right away and `None` is returned.
+#[cfg(feature = "verif-hooks")]
+fn verif_before(packet: IoPacket) -> Option<(IoPacket, u64)> {
+    let res = {
+        let (fd, pn, data): (i32, u64, &[u8]) = match packet.command.kind {
+            IoKind::Read(..) => return Some((packet, crate::verif::NO_TOKEN)),
+            IoKind::Write(fd, pn, ref page) => (fd, pn, &page[..]),
+            IoKind::WriteArc(fd, pn, ref page) => (fd, pn, &page[..]),
+            IoKind::WriteRaw(fd, pn, ref page) => (fd, pn, unsafe {
+                std::slice::from_raw_parts(page.as_ptr(), PAGE_SIZE)
+            }),
+        };
+        crate::verif::before(crate::verif::IoOp::Write {
+            fd,
+            offset: pn * PAGE_SIZE as u64,
+            data,
+        })
+    };
+    match res {
+        Ok(token) => Some((packet, token)),
+        Err(e) => {
+            let _ = packet.completion_sender.send(CompleteIo {
+                command: packet.command,
+                result: Err(e),
+            });
+            None
         }
     }
 }
